@@ -31,7 +31,7 @@ RULE = (
 )
 ASSUMPTIONS = ["writes are observed through Python's audit events and stat snapshots (a C extension writing behind Python's back would only be seen by the snapshot, and only inside the scratch area)"]
 BUDGET = {"quick": (160, 4), "thorough": (30000, 16)}
-REQUIRED = ["failing_command", "nested_world", "flatten_existing_dest", "flatten_relative_dest", "create_new_ascmhl", "tampered", "readonly_ok", "create_sf", "create_sf_beside_history", "leftover_partial", "flatten_refused_existing_empty_dest"]
+REQUIRED = ["failing_command", "nested_world", "flatten_existing_dest", "flatten_relative_dest", "create_new_ascmhl", "tampered", "readonly_ok", "create_sf", "create_sf_beside_history", "leftover_partial", "flatten_refused_existing_empty_dest", "nested_history_excluded_by_path_pattern"]
 
 CFG = {
     "kinds": ["create"] * 5 + ["create_sf"] + ["put_new", "overwrite", "rm", "mkdir", "mv"],
@@ -42,7 +42,7 @@ CFG = {
     "long_every": 6,
 }
 PROBES = ["verify", "verify_sf", "verify_dh", "verify_dh_co", "verify_dh_ro", "verify_pl", "diff", "info", "info_sf", "hash", "xsd", "xsd_df",
-          "flatten", "flatten", "flatten_nohist", "create", "create", "create_sf", "create_n", "create_dr", "create_i", "create_sub"]
+          "flatten", "flatten", "flatten_nohist", "create", "create", "create_sf", "create_n", "create_dr", "create_i", "create_sub", "create_i_path", "create_i_path", "create_dr_i_path", "create_dr_i_path"]
 
 
 @st.composite
@@ -247,6 +247,25 @@ def run_case(scn, ctx):
                     base += ["-dr"]
                 elif probe == "create_i":
                     base += ["-i", "*.tmp", "-i", "zzz"]
+                elif probe in ("create_i_path", "create_dr_i_path"):
+                    # a pattern that names a nested history by its path from the invoked root: that history (and what lies
+                    # below it) is out of scope, with rename detection on as well
+                    below = [r for r in roots if r != T and w.under(r, T)]
+                    if not below:
+                        continue
+                    deep = [r for r in below if r[len(T) + 1:].count("/") >= 1] or below
+                    ign = deep[k % len(deep)]
+                    relp = ign[len(T) + 1:]
+                    if not (set(relp) <= set("abcdefghijklmnopqrstuvwxyzABCDEFGHIJKLMNOPQRSTUVWXYZ0123456789._-/ ") and relp[0] not in "-!#/ " and not relp.endswith(" ")):
+                        continue  # (a literal pattern only)
+                    if any(o != ign and not w.under(o, ign) and o.split("/")[-1] == relp and "/" not in relp for o in below):
+                        continue  # (a bare name would exclude its namesakes too)
+                    base += ["-i", relp]
+                    if probe == "create_dr_i_path":
+                        w.put(T + "/newcomer %d.mov" % k, "a new path for rename detection to look at")
+                        base += ["-dr"]
+                    scope = {T} | {r for r in roots if w.under(r, T) and not w.under(r, ign)}
+                    feats.add("nested_history_excluded_by_path_pattern" if "/" in relp else "nested_history_excluded_by_name")
                 elif probe == "create_sub":
                     base[0] = w.abs(dirs[k % len(dirs)])
                 if scope is None:
